@@ -14,14 +14,17 @@ PolyFailing(ev) ==
     LET P == ev.g.pts
         lo == ev.g.lo
         hi == ev.g.hi
-        pb == PerimeterBounds(P, 1000)
+        \* (32-bit integers: the large polygons are measured to 1/100 instead of 1/1000)
+        big == hi > 40
+        pb == PerimeterBounds(P, IF big THEN 100 ELSE 1000)
+        PV(x) == IF big THEN x \div 10 ELSE x
     IN  {<<"contain", QueryAt(lo, hi, n)>> :
             n \in {m \in DOMAIN ev.res : ev.res[m] # B(Inside(P, QueryAt(lo, hi, m)))}}
         \cup (IF ev.sarea = SignedArea2(P) THEN {} ELSE {<<"signed_area">>})
         \cup (IF ev.area = Area2(P) * ev.count THEN {} ELSE {<<"area_times_repetition">>})
-        \cup (IF ev.perim1000 >= pb[1] * ev.count /\ ev.perim1000 <= pb[2] * ev.count + 1
+        \cup (IF PV(ev.perim1000) >= pb[1] * ev.count /\ PV(ev.perim1000) <= pb[2] * ev.count + 1
               THEN {} ELSE {<<"perimeter_times_repetition">>})
-        \cup (IF ev.area0 = Area2(P) /\ ev.perim0 >= pb[1] /\ ev.perim0 <= pb[2] + 1
+        \cup (IF ev.area0 = Area2(P) /\ PV(ev.perim0) >= pb[1] /\ PV(ev.perim0) <= pb[2] + 1
               THEN {} ELSE {<<"area_or_perimeter">>})
 
 GroupFailing(ev) ==
